@@ -3,16 +3,19 @@ TU = "c10_tls.c"
 U20 = ["--unwind", "20", "--unwinding-assertions"]
 U1030 = ["--unwind", "1030", "--unwinding-assertions"]
 TREE_FUC = ["myth_tls_tree_get", "myth_tls_tree_set", "myth_tls_tree_node_alloc", "myth_tls_tree_node_alloc_node", "myth_tls_tree_node_alloc_leaf"]
+U70 = ["--unwind", "70", "--unwinding-assertions"]
+HNOTE = "bounded: tree states reachable from a freshly initialised descriptor (arbitrary pool bytes) by at most %d earlier stores; keys, values and the checked key are symbolic; inner loops bounded by constants of the type and fully unwound"
 JOBS = [
-  Job("c10.tree.get", TU, "h_get", cbmc=["--unwind", "70", "--unwinding-assertions"], fuc=["myth_tls_tree_get"], timeout=600,
-      note="complete by type bound (3 levels, 4 children, 16 entries, 64 leaves)"),
-  Job("c10.tree.set", TU, "h_set", cbmc=["--unwind", "70", "--unwinding-assertions"], fuc=TREE_FUC, timeout=900, mem_gb=12),
-  Job("c10.tree.init", TU, "h_init", cbmc=["--unwind", "70", "--unwinding-assertions"], fuc=["myth_tls_tree_init", "myth_tls_tree_get"], timeout=600),
+  Job("c10.tree.get.bounded", TU, "h_get", kind="bounded", cbmc=U70, defines=["-DHIST=2"], fuc=["myth_tls_tree_get", "myth_tls_tree_init"] + TREE_FUC, timeout=600, mem_gb=12, note=HNOTE % 2),
+  Job("c10.tree.set.bounded", TU, "h_set", kind="bounded", cbmc=U70, defines=["-DHIST=2"], fuc=TREE_FUC, timeout=900, mem_gb=12, note=HNOTE % 2),
+  Job("c10.tree.set.hist3.bounded", TU, "h_set", kind="bounded", cbmc=U70, defines=["-DHIST=3"], fuc=TREE_FUC, timeout=3000, mem_gb=16, tiers=("thorough",), note=HNOTE % 3),
+  Job("c10.tree.init", TU, "h_init", cbmc=U70, fuc=["myth_tls_tree_init", "myth_tls_tree_get"], timeout=600,
+      note="complete: any descriptor contents, any key index"),
   Job("c10.ka.init", TU, "h_ka_init", cbmc=U1030, fuc=["myth_tls_key_allocator_init"], timeout=600,
       note="complete by type bound: the 1023-iteration initialisation loop is fully unwound"),
-  Job("c10.ka.alloc", TU, "h_ka_alloc", cbmc=U1030, fuc=["myth_tls_key_allocator_alloc"], timeout=600,
+  Job("c10.ka.alloc", TU, "h_ka_alloc", cbmc=U20, fuc=["myth_tls_key_allocator_alloc"], timeout=600,
       note="sequential contract (no interference): one pass of the retry loop; the concurrent obligation is c10.ka.alloc.rg"),
-  Job("c10.ka.dealloc", TU, "h_ka_dealloc", cbmc=U1030, fuc=["myth_tls_key_allocator_dealloc"], timeout=600),
+  Job("c10.ka.dealloc", TU, "h_ka_dealloc", cbmc=U20, fuc=["myth_tls_key_allocator_dealloc"], timeout=600),
   Job("c10.key_create", TU, "h_key_create", replace=["myth_ensure_init/ensure_init_contract", "myth_tls_key_allocator_alloc/alloc_contract"],
       fuc=["myth_key_create_body"], timeout=300),
   Job("c10.specific", TU, "h_specific", replace=["myth_ensure_init/ensure_init_contract"], cbmc=U20,
